@@ -217,6 +217,7 @@ impl Check for C20 {
             NON_BINDABLE.len(),
             POSITIONS.len()
         );
+        ctx.rule.push_str("; plus programs about which declaration a name reaches (pattern keys that read names bound earlier in the same pattern, non-functions shadowing a called function, declared functions that outlive block / call / iteration, names read, captured and then shadowed in block, function, for and while)");
         let mut g_redecl = false;
         let mut g_undef = false;
         let mut g_shadow = false;
